@@ -124,6 +124,102 @@ def measure_collisions(cases):
         st['cases_with_pool_hit'] += 1 if removed else 0
     return st
 
+# ------------------------------------------------------------------ Sec-placement stream
+# The shared generator puts 1-2 Sec codons at random interior positions of a designed CDS.  This stream designs coding
+# genes of its own with Sec codons at every POSITION CLASS of the CDS: first codon after the start, last sense codon
+# (directly before the stop / the 3'UTR feature, which in GENCODE style contains the stop codon), adjacent Sec-Sec,
+# 3-5 Sec on one transcript, Sec next to cleavage residues, in the first / last exon, with and without UTR features,
+# on cds_start_NF and mRNA_end_NF transcripts.
+SEC_CLASSES = ['after_start', 'last_sense', 'adjacent', 'many', 'next_to_site', 'random']
+
+def _bt(rng, prot):
+    return ''.join('TGA' if a == 'U' else rng.choice(G.BACK[a]) for a in prot)
+
+def design_sec_protein(rng, rule):
+    n = rng.randint(10, 36)
+    body = list(G.rand_protein(rng, n, bias='KRKRPMWWDEFLC'))
+    site_res = [ch for ch in R.rule_letters(rule) if ch in 'ACDEFGHIKLMNPQRSTVWY'] or ['K']
+    classes = set(rng.sample(SEC_CLASSES, rng.randint(1, 3)))
+    pos = set()
+    if 'after_start' in classes:
+        pos.add(1)
+    if 'last_sense' in classes:
+        pos.add(n - 1)
+    if 'adjacent' in classes:
+        i = rng.randint(2, n - 3); pos.update([i, i + 1])
+    if 'many' in classes:
+        pos.update(rng.sample(range(1, n), min(n - 1, rng.randint(3, 5))))
+    if 'next_to_site' in classes:
+        i = rng.randint(2, n - 2)
+        body[i - 1] = rng.choice(site_res); pos.add(i)
+        if rng.random() < 0.5 and i + 1 < n:
+            body[i + 1] = rng.choice(site_res)
+    if 'random' in classes:
+        pos.add(rng.randint(1, n - 1))
+    body[0] = 'M'
+    for i in pos:
+        body[i] = 'U'
+    return ''.join(body), sorted(classes)
+
+def add_sec_gene(w, rng, prot, n, nf, end_nf):
+    """coding gene with the given protein (U = annotated Sec, written as TGA); nf: cds_start_NF with 0-2 leading
+    frame bases and no start codon requirement; end_nf: the transcript ends with the last sense codon (+0-2 nt)"""
+    from harness.props import c08 as P8
+    frame = rng.choice([0, 1, 2]) if nf else 0
+    utr5 = G.rand_dna(rng, frame) if nf else G.rand_dna(rng, rng.randint(0, 14)).replace('ATG', 'ACG')
+    tail = G.rand_dna(rng, rng.choice([0, 1, 2])) if end_nf else rng.choice(['TAA', 'TAG', 'TGA']) + G.rand_dna(rng, rng.randint(0, 12))
+    dna = utr5 + _bt(rng, prot) + tail
+    cs = len(utr5)
+    secs = [cs + 3 * i for i, a in enumerate(prot) if a == 'U']
+    for _try in range(20):
+        w2 = copy.deepcopy(w)
+        P8.add_lnc_gene(w2, rng, dna, n)
+        g = w2['genes'][-1]; t = g['transcripts'][0]
+        t['sec'] = secs
+        if not split_sec({'genes': [g]}):
+            break
+    else:
+        return None
+    g['biotype'] = t['biotype'] = 'protein_coding'
+    t['cds'] = [cs, cs + 3 * len(prot)]
+    t['cds_feature_start'] = 0 if nf else cs
+    t['frame'] = frame
+    t['protein_id'] = 'ENSP' + t['id'][4:]
+    t['utr'] = rng.random() < 0.6
+    if nf:
+        t['tags'].append('cds_start_NF')
+    if end_nf:
+        t['tags'].append('mRNA_end_NF')
+    assert G.protein_of(w2, g, t) == prot, (G.protein_of(w2, g, t), prot)
+    # which exon carries each Sec (for the evidence histogram)
+    ex = sorted(t['exons']) if g['strand'] == 1 else sorted(t['exons'], reverse=True)
+    return w2
+
+def gen_sec_placement_cases(rng, names, n):
+    out = []
+    while len(out) < n:
+        w = G.gen_world(rng, small=True, coding_p=1.0, bias='KRKRPMWWDEFLC', sec_p=0.3, nf_p=0.1, max_genes=2)
+        if split_sec(w):
+            continue
+        o = gen_opts(rng, names)
+        if rng.random() < 0.5:
+            o['sect'] = True
+        classes = []
+        for gi in range(rng.choice([1, 1, 2])):
+            prot, cl = design_sec_protein(rng, o['rule'])
+            nf, end_nf = rng.random() < 0.2, rng.random() < 0.2
+            if nf and rng.random() < 0.5:
+                prot = rng.choice('ACDEFGHIKLNPQRSTVWYU') + prot[1:]      # an NF protein need not start with M
+            w2 = add_sec_gene(w, rng, prot, gi + 1, nf, end_nf)
+            if w2 is None:
+                continue
+            w = w2
+            classes += cl + (['cds_start_NF'] if nf else []) + (['mRNA_end_NF'] if end_nf else []) + \
+                       (['utr_features'] if w['genes'][-1]['transcripts'][0]['utr'] else ['no_utr_features']) + \
+                       (['n_sec=%d' % min(prot.count('U'), 6)])
+        out.append(dict(world=w, opts=o, sec_classes=classes))
+    return out
+
 def coding(w):
     return [(g, t) for g in w['genes'] for t in g['transcripts'] if t.get('cds')]
 
@@ -293,6 +389,12 @@ def run_tmod(ctx, cases):
             bad.append((c, r, mm))
     return bad
 
+def _hist(xs):
+    h = {}
+    for x in xs:
+        h[x] = h.get(x, 0) + 1
+    return h
+
 def corpus_cases():
     d = os.path.join(ROOT, 'corpus', PROPERTY)
     out = []
@@ -315,6 +417,8 @@ def run(ctx):
         cases.append(c)
     seeded = gen_collision_cases(rng, names, 150 if ctx.quick else 5000)
     cases += seeded
+    placed = gen_sec_placement_cases(rng, names, 300 if ctx.quick else 8000)
+    cases += placed
     results = evaluate(ctx, cases)
     collide = dict(collision_stream=measure_collisions(seeded[:150 if ctx.quick else 1000]),
                    random_stream=measure_collisions(cases[len(corp):len(corp) + (150 if ctx.quick else 1000)]))
@@ -361,7 +465,9 @@ def run(ctx):
                      'MiscleavedNodes.translational_modification vs node_tmod',
                 samples=[dict(opts=c['opts'], n_genes=len(c['world']['genes'])) for c in cases[:3]],
                 distribution=dist, failures=sum(1 for r in results if r['probs']), bracket=tot,
-                streams={'random_worlds': len(cases) - len(seeded), 'canonical_collision': len(seeded)}, pool_clause_measured=collide, headers_checked=tot['labels'],
+                streams={'random_worlds': len(cases) - len(seeded) - len(placed), 'canonical_collision': len(seeded),
+                         'sec_placement': len(placed)},
+                sec_placement_classes=_hist([k for c in placed for k in c.get('sec_classes', [])]), pool_clause_measured=collide, headers_checked=tot['labels'],
                 tmod_cases=len(tm), tmod_disagreements=len(tbad), corpus=[f for f, _ in corp], violations=v[:14],
                 engine_tied_by='correspondence',
                 assumptions=['DNA over A/C/G/T', 'mass thresholds off the 1e-4 grid',
